@@ -127,6 +127,7 @@ class SSHChannel(Generic[AnyStr], SSHPacketHandler):
         self._send_window: int = 0
         self._send_pktsize: int = 0
         self._send_paused = False
+        self._send_eof_pending = False
         self._send_buf: List[Tuple[bytearray, DataType]] = []
         self._send_buf_len = 0
 
@@ -332,6 +333,10 @@ class SSHChannel(Generic[AnyStr], SSHPacketHandler):
                 self.send_packet(MSG_CHANNEL_EOF)
                 self._send_state = 'eof'
             elif self._send_state == 'close_pending':
+                if self._send_eof_pending:
+                    self._send_eof_pending = False
+                    self.send_packet(MSG_CHANNEL_EOF)
+
                 self._close_send()
 
     def _flush_recv_buf(self, exc: Optional[Exception] = None) -> None:
@@ -778,7 +783,9 @@ class SSHChannel(Generic[AnyStr], SSHPacketHandler):
         self.logger.info('Closing channel')
 
         if self._send_state not in {'close_pending', 'closed'}:
-            # Send a close only after sending unsent data
+            # Send a close only after sending unsent data (and an EOF
+            # which was requested while that data was still buffered)
+            self._send_eof_pending = self._send_state == 'eof_pending'
             self._send_state = 'close_pending'
             self._flush_send_buf()
 
